@@ -255,9 +255,22 @@ def run_prop_program(prog):
                 kb.model.add_data({kb.obj[i]: (float(lo), float(hi))})
                 lines.append(f"set {i} {q(lo)} {q(hi)}")
                 out.append("ok")
+            elif op[0] == "resetb":
+                kb.model.reset_bounds()
+                lines.append("resetb")
+                out.append("ok")
+            elif op[0] == "print":
+                import io, contextlib
+                with contextlib.redirect_stdout(io.StringIO()):
+                    kb.model.print()
+                    for i in kb.order:
+                        kb.obj[i].state()
+                continue
             elif op[0] == "query":
                 _, i, conv = op
                 kb.model.set_query(kb.obj[i], converge=bool(conv))
+                lines.append(f"set {i} 0 1")
+                out.append("ok")
                 continue
             else:
                 raise ValueError(op)
@@ -265,4 +278,211 @@ def run_prop_program(prog):
             meta["errors"].append(f"{op}: {type(e).__name__}: {e}")
             break
         snap()
+    return {"lines": lines, "impl": out, "meta": meta}
+
+
+# ------------------------------------------------------------------ C07: order independence
+
+def run_c07(case):
+    """Run one KB + data under several orders: infer(), infer() with permuted roots, and random fair
+    node-level schedules until a whole round changes nothing. Returns protocol lines of all variants
+    (separated by `reset`) and the final dumps for the oracle."""
+    import impl
+    L = impl.lnn()
+    rng = random.Random(case["seed"])
+    variants = []
+    lines, out = [], []
+    data = None
+    n_var = case.get("n_schedules", 3)
+    for vi in range(2 + n_var):
+        impl.take_log()
+        kb = impl.PropKB(case["kb"])
+        roots = list(kb.roots)
+        if vi >= 1:
+            rng.shuffle(roots)
+        kb.add_roots(roots)
+        lines += kb.header_lines()
+        out += ["ok"] * (len(kb.order) + 1)
+        if data is None:
+            if case.get("interp_atoms") is not None:
+                interp = truth_values(kb, {int(k): v for k, v in case["interp_atoms"].items()})
+                drng = random.Random(case.get("data_seed", 0))
+                data = []
+                for i in kb.order:
+                    p = 0.8 if type(kb.obj[i]).__name__ == "Proposition" else 0.35
+                    if drng.random() < p:
+                        lo, hi = grid_bounds_around(drng, interp[i])
+                        data.append((i, lo, hi))
+            else:
+                data = [tuple(d) for d in case["data"]]
+        dd = list(data)
+        if vi >= 1:
+            rng.shuffle(dd)
+        for i, lo, hi in dd:
+            kb.model.add_data({kb.obj[i]: (float(lo), float(hi))})
+            lines.append(f"set {i} {q(lo)} {q(hi)}")
+            out.append("ok")
+        registered = sorted(kb.registered_ids())
+        ids = lambda l: ",".join(map(str, l)) if l else "-"
+        info = {"kind": "infer" if vi < 2 else "schedule", "roots": roots}
+        if vi < 2:
+            steps, r = kb.model.infer(max_steps=200)
+            log = impl.take_log()
+            ups, downs = kb.calls(log, "upward"), kb.calls(log, "downward")
+            per_u, per_d = len(ups) // max(steps, 1), len(downs) // max(steps, 1)
+            lines.append(f"infer {EPS} 200 - 0 {ids(ups[:per_u])} {ids(downs[:per_d])}")
+            out.append(f"n {steps} {q(impl.amount(r))}")
+            info["steps"] = steps
+        else:
+            calls = [(d, i) for i in registered if type(kb.obj[i]).__name__ != "Proposition" for d in ("up", "down")]
+            rounds = 0
+            while rounds < 100:
+                rounds += 1
+                before = kb.dump()
+                rng.shuffle(calls)
+                for d, i in calls:
+                    if d == "up":
+                        r = kb.obj[i].upward()
+                        lines.append(f"up {i}")
+                    else:
+                        r = kb.obj[i].downward()
+                        lines.append(f"down {i} -")
+                    out.append("r " + q(impl.amount(r)))
+                if kb.dump() == before:
+                    break
+            info["rounds"] = rounds
+        lines.append(kb.dump_line())
+        out.append(kb.dump())
+        lines.append("contra " + ids(registered))
+        out.append("c %d" % (1 if kb.model.has_contradiction() else 0))
+        info["final"] = out[-2]
+        info["contra"] = out[-1]
+        info["end_line"] = len(lines)
+        variants.append(info)
+    return {"lines": lines, "impl": out,
+            "meta": {"variants": variants, "ids": kb.all_ids(), "data": [(i, q(l), q(u)) for i, l, u in data]}}
+
+
+# ------------------------------------------------------------------ C20: source / query restricted inference
+
+def run_c20(case):
+    import impl
+    L = impl.lnn()
+    lines, out = [], []
+    meta = {"violations": [], "info": {}}
+    ids = lambda l: ",".join(map(str, l)) if l else "-"
+
+    def build():
+        impl.take_log()
+        kb = impl.PropKB(case["kb"])
+        kb.add_roots()
+        lines.extend(kb.header_lines())
+        out.extend(["ok"] * (len(kb.order) + 1))
+        if case.get("interp_atoms") is not None:
+            interp = truth_values(kb, {int(k): v for k, v in case["interp_atoms"].items()})
+            drng = random.Random(case.get("data_seed", 0))
+            data = []
+            for i in kb.order:
+                p = 0.8 if type(kb.obj[i]).__name__ == "Proposition" else 0.35
+                if drng.random() < p:
+                    lo, hi = grid_bounds_around(drng, interp[i])
+                    data.append((i, lo, hi))
+        else:
+            data = [tuple(d) for d in case["data"]]
+        for i, lo, hi in data:
+            kb.model.add_data({kb.obj[i]: (float(lo), float(hi))})
+            lines.append(f"set {i} {q(lo)} {q(hi)}")
+            out.append("ok")
+        meta["data"] = [(i, q(l), q(u)) for i, l, u in data]
+        return kb
+
+    def snap(kb):
+        lines.append(kb.dump_line())
+        out.append(kb.dump())
+        return out[-1]
+
+    def do_infer(kb, **kw):
+        impl.take_log()
+        steps, r = kb.model.infer(max_steps=200, **kw)
+        log = impl.take_log()
+        ups, downs = kb.calls(log, "upward"), kb.calls(log, "downward")
+        per_u, per_d = len(ups) // max(steps, 1), len(downs) // max(steps, 1)
+        qid, conv = "-", 0
+        if kb.model.query is not None:
+            qid, conv = str(kb.idof[id(kb.model.query)]), (1 if kb.model._converge else 0)
+        lines.append(f"infer {EPS} 200 {qid} {conv} {ids(ups[:per_u])} {ids(downs[:per_d])}")
+        out.append(f"n {steps} {q(impl.amount(r))}")
+        return steps, set(ups) | set(downs)
+
+    def desc(kb, i):
+        seen, todo = set(), [kb.obj[i]]
+        while todo:
+            o = todo.pop()
+            if id(o) in seen:
+                continue
+            seen.add(id(o))
+            todo.extend(o.operands)
+        return {kb.idof[x] for x in seen}
+
+    # ---- variant 1: infer(source=...) then full inference
+    kb = build()
+    src = case["source"]
+    d0 = snap(kb)
+    steps, touched = do_infer(kb, source=kb.obj[src])
+    d1 = snap(kb)
+    inside = desc(kb, src)
+    meta["info"]["source"] = src
+    meta["info"]["desc"] = sorted(inside)
+    meta["info"]["outside"] = [i for i in kb.order if i not in inside]
+    meta["info"]["restricted_steps"] = steps
+    if not touched <= inside:
+        meta["violations"].append({"problem": "source-restricted traversal left the source's sub-graph",
+                                   "called": sorted(touched - inside)})
+    meta["d0"], meta["d1"] = d0, d1
+    do_infer(kb)
+    meta["d2"] = snap(kb)
+    lines.append("contra " + ids(sorted(kb.registered_ids())))
+    out.append("c %d" % (1 if kb.model.has_contradiction() else 0))
+    meta["contra_full"] = out[-1]
+
+    # ---- variant 2: query with early stop, then converge=True on a fresh model
+    qn = case["query"]
+    kb = build()
+    kb.model.set_query(kb.obj[qn], converge=False)
+    # set_query(world=OPEN) re-adds the formula with a world: reset_world flushes its data to (0,1)
+    lines.append(f"set {qn} 0 1"); out.append("ok")
+    if len(kb.model.nodes) != len(set(map(id, kb.model.nodes.values()))):
+        meta["violations"].append({"problem": "set_query registered an object twice", "nodes": len(kb.model.nodes)})
+    steps_q, _ = do_infer(kb)
+    meta["dq"] = snap(kb)
+    meta["q_resolved_early"] = bool(kb.obj[qn].is_classically_resolved)
+    meta["q_bounds_early"] = [q(x) for x in impl.bounds_of(kb.obj[qn])]
+    kb = build()
+    kb.model.set_query(kb.obj[qn], converge=True)
+    lines.append(f"set {qn} 0 1"); out.append("ok")
+    steps_c, _ = do_infer(kb)
+    meta["dc"] = snap(kb)
+    meta["q_bounds_conv"] = [q(x) for x in impl.bounds_of(kb.obj[qn])]
+    meta["info"].update({"query": qn, "steps_early": steps_q, "steps_conv": steps_c})
+    lines.append("contra " + ids(sorted(kb.registered_ids())))
+    out.append("c %d" % (1 if kb.model.has_contradiction() else 0))
+    meta["contra_conv"] = out[-1]
+    # ---- variant 3: infer_query() == infer(source=query)
+    kb = build()
+    kb.model.set_query(kb.obj[qn], converge=True)
+    lines.append(f"set {qn} 0 1"); out.append("ok")
+    d0q = snap(kb)
+    impl.take_log()
+    steps, r = kb.model.infer_query(max_steps=200)
+    log = impl.take_log()
+    ups, downs = kb.calls(log, "upward"), kb.calls(log, "downward")
+    per_u, per_d = len(ups) // max(steps, 1), len(downs) // max(steps, 1)
+    lines.append(f"infer {EPS} 200 {qn} 1 {ids(ups[:per_u])} {ids(downs[:per_d])}")
+    out.append(f"n {steps} {q(impl.amount(r))}")
+    d1q = snap(kb)
+    insideq = desc(kb, qn)
+    if not (set(ups) | set(downs)) <= insideq:
+        meta["violations"].append({"problem": "infer_query traversal left the query's sub-graph"})
+    meta["iq"] = (d0q, d1q, sorted(insideq))
+    meta["ids"] = kb.all_ids()
     return {"lines": lines, "impl": out, "meta": meta}
